@@ -307,7 +307,7 @@ func checkErrDecimal(c Case, st *core.Stats) error {
 		if want.Err != nil {
 			st.NonTrivial("errdecimal-step-errors")
 		}
-		if !core.SameFields(d, want.D) || (want.Err == nil && extra != wantInt) {
+		if !core.SameFields(d, want.D) || extra != wantInt {
 			return fmt.Errorf("ErrDecimal.%s step %d: destination %s extra=%d, Context method gives %s extra=%d flags=%s err=%s (history: %s)",
 				s.Op, i, core.Show(d), extra, core.Show(want.D), wantInt, core.FlagStr(want.Res), errStr(want.Err), hist)
 		}
